@@ -107,62 +107,6 @@ pub(crate) mod verif_e7 {
         core::mem::forget(mg);
     }
 
-    /// representation invariant of the window after every add_data, with evictions while 3 entries are present:
-    /// the entries are exactly the most recent blocks in chronological order, window_size is their total length and within the
-    /// maximum, and base_offset(entry) is the distance from the entry's start to the start of the newest entry
-    pub(crate) fn window_invariant(mg: &MatchGenerator, lens: &[usize], upto: usize) {
-        let n = mg.window.len();
-        assert!(n >= 1 && n <= upto + 1, "E7: window entry count");
-        let mut total = 0usize;
-        let mut i = 0;
-        while i < n {
-            let blk = upto + 1 - n + i; // chronological index of the block this entry must hold
-            let e = &mg.window[i];
-            assert!(e.data.len() == lens[blk] && e.data[0] == blk as u8, "E7: window entries must be the most recent blocks, oldest first");
-            let mut dist = 0usize;
-            let mut j = blk;
-            while j < upto { dist += lens[j]; j += 1; }
-            assert!(e.base_offset == dist, "E7: base_offset must be the distance from the entry's start to the newest entry's start");
-            total += e.data.len();
-            i += 1;
-        }
-        assert!(mg.window_size == total && total <= mg.max_window_size, "E7: window_size must be the retained length and within the maximum");
-        if n < upto + 1 {
-            // something was evicted: only as much as necessary (the evicted neighbour would not have fitted)
-            assert!(total + lens[upto - n] > mg.max_window_size, "E7: evicts more than necessary");
-        }
-    }
-
-    /// window sizes are concrete per harness (a symbolic maximum makes the eviction loop bound symbolic and exhausts CBMC);
-    /// the sequence of block lengths exercises evictions while 2, 3 and 4 entries are present
-    pub(crate) fn bookkeeping<const MAXW: usize>() {
-        let lens = [2usize, 1, 2, 1, 2, 1];
-        let mut mg = MatchGenerator::new(MAXW);
-        let mut b = 0usize;
-        while b < 6 {
-            let mut d = alloc::vec![0u8; lens[b]];
-            d[0] = b as u8;
-            mg.add_data(d, SuffixStore::with_capacity(8), |_d, _s| {});
-            window_invariant(&mg, &lens, b);
-            mg.skip_matching();
-            b += 1;
-        }
-        mg.reset(|_d, _s| {});
-        assert!(mg.window.is_empty() && mg.window_size == 0 && mg.suffix_idx == 0 && mg.last_idx_in_sequence == 0, "E7: reset must forget the window");
-        core::mem::forget(mg);
-    }
-    macro_rules! bk {
-        ($name:ident, $w:expr) => {
-            #[cfg_attr(kani, kani::proof)]
-            #[cfg_attr(kani, kani::unwind(10))]
-            #[cfg_attr(killingspark_zstd_rs_verif, no_mangle)]
-            pub fn $name() { bookkeeping::<$w>(); }
-        };
-    }
-    bk!(e7_window_bookkeeping_3, 3);
-    bk!(e7_window_bookkeeping_5, 5);
-    bk!(e7_window_bookkeeping_6, 6);
-
     #[cfg(kani)]
     #[kani::proof]
     #[kani::unwind(10)]
@@ -184,9 +128,6 @@ pub(crate) mod verif_e7 {
     }
 }
 //@end
-//@harness e7_window_bookkeeping_3 kind=proof fn=MatchGenerator::add_data,MatchGenerator::reserve,MatchGenerator::skip_matching,MatchGenerator::reset props=C17,C15 tier=quick profile=rel bound="CONCRETE trace: 6 blocks of lengths 2,1,2,1,2,1, maximum window 3 bytes (evictions with several entries present); a bounded execution, not a proof" witness=e7_window_bookkeeping_3 timeout=1200
-//@harness e7_window_bookkeeping_5 kind=proof fn=MatchGenerator::add_data,MatchGenerator::reserve,MatchGenerator::skip_matching,MatchGenerator::reset props=C17,C15 tier=quick profile=rel bound="CONCRETE trace: 6 blocks of lengths 2,1,2,1,2,1, maximum window 5 bytes (evictions with several entries present); a bounded execution, not a proof" witness=e7_window_bookkeeping_5 timeout=1200
-//@harness e7_window_bookkeeping_6 kind=proof fn=MatchGenerator::add_data,MatchGenerator::reserve,MatchGenerator::skip_matching,MatchGenerator::reset props=C17,C15 tier=quick profile=rel bound="CONCRETE trace: 6 blocks of lengths 2,1,2,1,2,1, maximum window 6 bytes (evictions with several entries present); a bounded execution, not a proof" witness=e7_window_bookkeeping_6 timeout=1200
 //@harness e7_two_blocks kind=proof fn=MatchGenerator::next_sequence,MatchGenerator::add_data,MatchGenerator::reserve,MatchGenerator::skip_matching,MatchGenerator::add_suffixes_till,SuffixStore::insert,SuffixStore::get,SuffixStore::key props=C17,C15,C02 tier=thorough profile=dbg bound="2 blocks of 6 bytes over the alphabet {0,1} (all 2^12 contents), window 12 bytes, 8-slot suffix store" witness=e7_two_blocks timeout=3000 heavy=yes
 //@harness e7_eviction_reset kind=proof fn=MatchGenerator::next_sequence,MatchGenerator::add_data,MatchGenerator::reserve,MatchGenerator::reset props=C17 tier=thorough profile=dbg bound="blocks of 6 bytes over {0,1}, window 9 bytes (eviction), reset and reuse" witness=e7_eviction_reset timeout=3000 heavy=yes
 //@harness e7_cover kind=cover props=C17 tier=thorough profile=dbg timeout=3000 heavy=yes
